@@ -413,6 +413,11 @@ func harnessC03() {
 	tDie := vNondetTime("tDie")
 	vAssume(tDie <= 100*sec)
 	go func() { vDaemon(); vSleepUntil(tDie); p.die() }()
+	if vChoice(2) == 1 { // requests take a symbolic time to travel, so that the crash can fall inside a multi-step operation
+		vCover("with-latency")
+		wNetDelay = vNondetTime("latency")
+		vAssume(wNetDelay >= 1 && wNetDelay <= sec/10)
+	}
 
 	// t = 0: Start
 	r := wTimed(func() error { _, err := c.Start(); return err })
